@@ -33,10 +33,11 @@ ASSUMPTIONS = ['SQLite 3.40 with JSON1 live through pony.orm.dbproviders.sqlite;
                'PostgreSQL is not run: only the array-literal text of the #> operand is decoded, by a lexer written '
                'from the array_in() input rules (stub psycopg2 in vlib/stubs to import the real provider)']
 SHARDS = {'quick': 4, 'thorough': 16}
-MIN_EVALS = {'quick': 6000, 'thorough': 100000}
-# fractions of ALL evaluations (JSON cases are about 2/3 of them, array cases 1/3, PostgreSQL paths a few percent)
-CLASS_FLOORS = {'mode:fallback': 0.4, 'mode:json1': 0.4, 'form:gen': 0.4, 'form:str': 0.4,
-                'kind:json': 0.4, 'kind:array': 0.15, 'kind:pgpath': 0.01,
+MIN_EVALS = {'quick': 6000, 'thorough': 60000}
+# fractions of ALL evaluations (JSON cases are about 2/3 of them, array cases 1/3, PostgreSQL paths a few percent;
+# the PostgreSQL cases have no mode / form)
+CLASS_FLOORS = {'mode:fallback': 0.3, 'mode:json1': 0.3, 'form:gen': 0.3, 'form:str': 0.3,
+                'kind:json': 0.3, 'kind:array': 0.15, 'kind:pgpath': 0.01,
                 'json:param_path': 0.08, 'json:quoted_key': 0.08, 'json:neg_index': 0.02, 'json:depth>=2': 0.06,
                 'json:cmp': 0.04, 'json:in': 0.04, 'json:truth': 0.04, 'json:proj': 0.04, 'json:len': 0.02,
                 'array:slice': 0.03, 'array:index': 0.03, 'array:contains': 0.02, 'array:subset': 0.02}
@@ -142,10 +143,10 @@ def _one_combo(ctx, case):
 
 def run(ctx):
     from vlib import c29_gen as G
-    n = ctx.scale(400, 2400)
+    n = ctx.scale(400, 1600)
     # cheapest first, so that a wall-clock stop on a loaded machine still leaves every part exercised
     ctx.run_test(lambda keys: _one(ctx, {'kind': 'pgpath', 'keys': keys}), dict(keys=G.pg_keys_st),
-                 max_examples=n // 4 * 4, name='pg_path')
+                 max_examples=n // 2, name='pg_path')
     if ctx.violation is None:
         ctx.run_test(lambda case: _one(ctx, case), dict(case=G.array_case()), max_examples=n // 2, name='array_ops')
     if ctx.violation is None:
